@@ -337,6 +337,23 @@ func (s *sess) diff(m *model, checkCallbacks bool) string {
 
 func jsonOf(v any) string { b, _ := json.Marshal(v); return string(b) }
 
+// readFrom reads everything after an offset, following next offsets (a store may cap its pages).
+func readFrom(ctx context.Context, st ebu.EventStore, from ebu.Offset) ([]*ebu.StoredEvent, error) {
+	var all []*ebu.StoredEvent
+	for step := 0; step < 100000; step++ {
+		evs, next, err := st.Read(ctx, from, 0)
+		if err != nil {
+			return nil, err
+		}
+		if len(evs) == 0 {
+			break
+		}
+		all = append(all, evs...)
+		from = next
+	}
+	return all, nil
+}
+
 func TestC18(t *testing.T) {
 	run := vk.New("C18", "fold")
 	defer run.Finish()
@@ -350,7 +367,7 @@ func TestC18(t *testing.T) {
 		r := run.Rand(uint64(c))
 		specs := gen(r)
 		strict := r.IntN(2) == 0
-		kind := []string{"memory", "memory", "sqlite-mem", "memory-paged"}[c%4]
+		kind := []string{"memory", "memory-capped", "sqlite-mem", "memory-paged", "memory"}[c%5]
 		st, err := stores.Open(kind, scratch)
 		if err != nil {
 			t.Fatal(err)
@@ -372,7 +389,7 @@ func TestC18(t *testing.T) {
 				ebu.Publish(bus, *m)
 			}
 		}
-		evs, _, err := st.Store.Read(ctx, ebu.OffsetOldest, 0)
+		evs, err := readFrom(ctx, st.Store, ebu.OffsetOldest)
 		if err != nil || len(evs) != len(specs) {
 			t.Fatalf("store holds %d events for %d messages (%v)", len(evs), len(specs), err)
 		}
@@ -464,6 +481,25 @@ func TestC18(t *testing.T) {
 				viol("replay-fold", d)
 			}
 		}
+		// Materializer.Replay over a log with an event that cannot be applied: it stops there with an
+		// error, the state is the fold of the events before it and LastOffset is the offset of the last
+		// one that was applied (so that a resumed session sees the failing event again)
+		if !allOK {
+			i0 := 0
+			for applicable[i0] {
+				i0++
+			}
+			prefix := newModel()
+			for i := 0; i < i0; i++ {
+				prefix.apply(specs[i], evs[i].Offset, strict)
+			}
+			failing := newSess(strict)
+			if err := failing.mat.Replay(ctx, bus, ebu.OffsetOldest); err == nil {
+				viol("replay-swallowed-apply-error", fmt.Sprintf("Materializer.Replay returned nil although message %d (%+v) cannot be applied", i0, specs[i0]))
+			} else if d := failing.diff(prefix, false); d != "" {
+				viol("failed-replay-state", fmt.Sprintf("Materializer.Replay stopped at the failing message %d: %s", i0, d))
+			}
+		}
 		// two sessions at every split point
 		splits := len(evs) + 1
 		stepK := 1
@@ -492,7 +528,7 @@ func TestC18(t *testing.T) {
 					break
 				}
 			} else {
-				rest, _, err := st.Store.Read(ctx, from, 0)
+				rest, err := readFrom(ctx, st.Store, from)
 				if err != nil {
 					t.Fatal(err)
 				}
